@@ -1,4 +1,4 @@
 SPECIFICATION Spec
-CONSTANTS PairSrc = "file" CtxU = "ops4" MaxFlow = 3 KeyU = "six" Writ = "all"
+CONSTANTS PairSrc = "file" CtxU = "ops4" MaxFlow = 3 KeyU = "six" Writ = "all" NObj = 0
 INVARIANT EmitFlow
 CHECK_DEADLOCK FALSE
